@@ -15,26 +15,44 @@ structure Pushes (db : Db) (s s' : JState) (es : List Entry) : Prop where
   undo : undoTs (sdOf s) (absT db s') es = absT db s
   zero : ∀ a, Entry.accountCreated a ∈ es → ∀ k, db.storage a k = 0
   bal : BalOk (absT db s) → BalOk (absT db s')
+  /-- an account (a slot) whose warming is journaled in `es` is warm now -/
+  warmedA : ∀ b, Entry.accountWarmed b ∈ es → (absT db s').warm b = true
+  warmedS : ∀ b k, Entry.storageWarmed b k ∈ es → ((absT db s').slot b k).warm = true
 
 
 theorem Pushes.refl (db : Db) (s : JState) : Pushes db s s [] :=
-  ⟨fun _ _ h => by simpa using h, rfl, rfl, rfl, rfl, fun _ h => by simp at h, id⟩
+  ⟨fun _ _ h => by simpa using h, rfl, rfl, rfl, rfl, fun _ h => by simp at h, id,
+   fun _ h => by simp at h, fun _ _ h => by simp at h⟩
 
 theorem Pushes.trans {db : Db} {s s1 s2 : JState} {es1 es2 : List Entry}
     (h1 : Pushes db s s1 es1) (h2 : Pushes db s1 s2 es2) : Pushes db s s2 (es2 ++ es1) := by
   refine ⟨fun top rest h => ?_, h2.spec.trans h1.spec, h2.pre.trans h1.pre, h2.logs.trans h1.logs, ?_, ?_,
-    fun h => h2.bal (h1.bal h)⟩
+    fun h => h2.bal (h1.bal h), ?_, ?_⟩
   · rw [h2.journal _ _ (h1.journal _ _ h), List.append_assoc]
   · rw [undoTs_append, ← sdOf_eq h1.spec, h2.undo, sdOf_eq h1.spec, h1.undo]
   · intro a ha; rcases List.mem_append.1 ha with h | h
     · exact h2.zero a h
     · exact h1.zero a h
+  · intro b hb; rcases List.mem_append.1 hb with h | h
+    · exact h2.warmedA b h
+    · have e := congrFun (congrArg AState.warm h2.undo) b
+      rw [undoTs_warm, h1.warmedA b h] at e
+      cases hw : (absT db s2).warm b
+      · rw [hw] at e; simp at e
+      · rfl
+  · intro b k hb; rcases List.mem_append.1 hb with h | h
+    · exact h2.warmedS b k h
+    · have e := congrArg AbsSlot.warm (congrFun (congrFun (congrArg AState.slot h2.undo) b) k)
+      rw [undoTs_slotwarm, h1.warmedS b k h] at e
+      cases hw : ((absT db s2).slot b k).warm
+      · rw [hw] at e; simp at e
+      · rfl
 
 /-- a step that is invisible in the observable state and in the journal -/
 theorem Pushes.silent {db : Db} {s s' : JState} (h1 : absT db s' = absT db s) (hj : s'.journal = s.journal)
     (h2 : s'.spec = s.spec) (h3 : s'.preloaded = s.preloaded) (h4 : s'.logs = s.logs) : Pushes db s s' [] :=
   ⟨fun _ _ h => by simpa [hj] using h, h2, h3, h4, by simpa [undoTs] using h1, fun _ h => by simp at h,
-   fun h => by rw [h1]; exact h⟩
+   fun h => by rw [h1]; exact h, fun _ h => by simp at h, fun _ _ h => by simp at h⟩
 
 structure PushedOn (s s' : JState) (e : Entry) : Prop where
   journal : ∀ top rest, s.journal = top :: rest → s'.journal = (e :: top) :: rest
@@ -61,13 +79,18 @@ theorem Pushes.of_push {db : Db} {s s1 s' : JState} {e : Entry} (hp : pushEntry 
     (hlogs : s1.logs = s.logs)
     (hu : undoT (sdOf s) (absT db s1) e = absT db s)
     (hz : ∀ a, e = .accountCreated a → ∀ k, db.storage a k = 0)
-    (hb : BalOk (absT db s) → BalOk (absT db s1)) : Pushes db s s' [e] := by
+    (hb : BalOk (absT db s) → BalOk (absT db s1))
+    (hwA : ∀ b, e = .accountWarmed b → (absT db s1).warm b = true := by intro b hb; cases hb)
+    (hwS : ∀ b k, e = .storageWarmed b k → ((absT db s1).slot b k).warm = true := by intro b k hb; cases hb) :
+    Pushes db s s' [e] := by
   have p := pushEntry_some hp
-  refine ⟨fun t r ht => ?_, p.spec.trans hspec, p.pre.trans hpre, p.logs.trans hlogs, ?_, ?_, ?_⟩
+  refine ⟨fun t r ht => ?_, p.spec.trans hspec, p.pre.trans hpre, p.logs.trans hlogs, ?_, ?_, ?_, ?_, ?_⟩
   · rw [p.journal t r (hj.trans ht)]; rfl
   · simp only [undoTs]; rw [p.absT db]; exact hu
   · intro a ha; simp at ha; exact hz a ha.symm
   · intro h; rw [p.absT db]; exact hb h
+  · intro b hb; simp at hb; rw [p.absT db]; exact hwA b hb.symm
+  · intro b k hb; simp at hb; rw [p.absT db]; exact hwS b k hb.symm
 
 /-- `load_account`: journals exactly the cold load, and `is_cold` is the negation of the observable warm bit -/
 theorem loadAccount_pushes {db : Db} {s s' : JState} {a : Addr} {c : Bool}
@@ -85,6 +108,7 @@ theorem loadAccount_pushes {db : Db} {s s' : JState} {a : Addr} {c : Bool}
       subst h2 h3
       refine ⟨?_, ?_, ?_⟩
       · refine Pushes.of_push h1 rfl rfl rfl rfl ?_ (by simp) ?_
+          (by intro b hb; cases hb; simp [absT_setAcct, putA, absOf])
         · simp [undoTs, absT_setAcct, putA, undoT, absOf, upd_upd_same, ha, upd_self', absSlot_some, hc]
         · simp [BalOk, absT_setAcct, putA, absOf, ha, upd_self']
       · simp [ha, absOf, hc]
@@ -108,6 +132,8 @@ theorem loadAccount_pushes {db : Db} {s s' : JState} {a : Addr} {c : Bool}
       subst h2 h3
       refine ⟨?_, ?_, ?_⟩
       · refine Pushes.of_push h1 rfl rfl rfl rfl ?_ (by simp) ?_
+          (by intro b hb; cases hb; cases hd : db.basic a <;>
+                simp [absT_setAcct, putA, absOf, Acct.ofInfo, Acct.newNotExisting])
         · cases hd : db.basic a <;>
           simp [undoTs, absT_setAcct, putA, undoT, absOf, upd_upd_same, ha, upd_self', absSlot_some, hp, hd,
             Acct.ofInfo, Acct.newNotExisting, absSlot_none, maskT]
@@ -160,7 +186,8 @@ theorem touchAccount_pushes {db : Db} {s s' : JState} {a : Addr} {acc acc' : Acc
       have hE : (absT db (setAcct s1 a { acc with touched := true })).balance = (absT db s).balance := by
         rw [← e]; simp [absT_setAcct, putA, absOf, ha2, upd_self', esd, p.pre]
       refine ⟨?_, by simp [setAcct_state_same], rfl, fun b hb => by rw [setAcct_state_ne _ _ hb, p.state], hE⟩
-      refine ⟨fun t r hj => by simp [p.journal t r hj], by simp [p.spec], by simp [p.pre], by simp [p.logs], ?_, by simp, BalOk.of_eq hE⟩
+      refine ⟨fun t r hj => by simp [p.journal t r hj], by simp [p.spec], by simp [p.pre], by simp [p.logs], ?_, by simp, BalOk.of_eq hE,
+        by simp, by simp⟩
       rw [← e]
       simp [undoTs, absT_setAcct, putA, undoT, absOf, upd_upd_same, ha2, upd_self', absSlot_some, ht, esd, p.pre, unT_maskT]
 
@@ -171,15 +198,19 @@ theorem Pushes.of_push_set {db : Db} {s s1 : JState} {a : Addr} {acc' : Acct} {e
     (hp : pushEntry s e = some s1)
     (hu : undoT (sdOf s) (absT db (setAcct s a acc')) e = absT db s)
     (hz : ∀ a, e = .accountCreated a → ∀ k, db.storage a k = 0)
-    (hb : BalOk (absT db s) → BalOk (absT db (setAcct s a acc'))) : Pushes db s (setAcct s1 a acc') [e] := by
+    (hb : BalOk (absT db s) → BalOk (absT db (setAcct s a acc')))
+    (hnA : ∀ b, ¬ e = .accountWarmed b := by intro b hb; cases hb)
+    (hnS : ∀ b k, ¬ e = .storageWarmed b k := by intro b k hb; cases hb) : Pushes db s (setAcct s1 a acc') [e] := by
   have p := pushEntry_some hp
   have e1 : absT db (setAcct s1 a acc') = absT db (setAcct s a acc') :=
     absT_congr db (by simp [setAcct, p.state]) p.spec p.pre p.transient
-  refine ⟨fun t r ht => ?_, p.spec, p.pre, p.logs, ?_, ?_, ?_⟩
+  refine ⟨fun t r ht => ?_, p.spec, p.pre, p.logs, ?_, ?_, ?_, ?_, ?_⟩
   · simp [p.journal t r ht]
   · simp only [undoTs]; rw [e1]; exact hu
   · intro a ha; simp at ha; exact hz a ha.symm
   · intro h; rw [e1]; exact hb h
+  · intro b hb; simp at hb; exact absurd hb.symm (hnA b)
+  · intro b k hb; simp at hb; exact absurd hb.symm (hnS b k)
 
 theorem touch_pushes {db : Db} {s s' : JState} {a : Addr} (h : touch s a = some s') : ∃ es, Pushes db s s' es := by
   unfold touch at h
@@ -311,7 +342,8 @@ theorem sload_pushes {db : Db} {s s' : JState} {a : Addr} {k v : Nat} {c : Bool}
         obtain ⟨s1, h1, h2, h3, h4⟩ := h
         subst h2 h3 h4
         refine ⟨?_, ?_, ?_, ?_⟩
-        · refine Pushes.of_push h1 rfl rfl rfl rfl ?_ (by simp) ?_
+        · refine Pushes.of_push h1 rfl rfl rfl rfl ?_ (by simp) ?_ (hwS := by
+            intro b j hb; cases hb; simp [absT_setAcct, putA, absOf, absSlot_some, slotsOf_setSlot])
           · simp [absT_setAcct, putA, undoT, absOf, upd_upd_same, ha, upd_self', absSlot_some, slotsOf_setSlot,
               slotsOf_some db a acc.created hk, hc, updK_updK_same, updK_self]
           · exact BalOk.of_eq (by simp [absT_setAcct, putA, absOf, ha, upd_self'])
@@ -334,7 +366,8 @@ theorem sload_pushes {db : Db} {s s' : JState} {a : Addr} {k v : Nat} {c : Bool}
       obtain ⟨s1, h1, h2, h3, h4⟩ := h
       subst h2 h3 h4
       refine ⟨?_, ?_, ?_, ?_⟩
-      · refine Pushes.of_push h1 rfl rfl rfl rfl ?_ (by simp) ?_
+      · refine Pushes.of_push h1 rfl rfl rfl rfl ?_ (by simp) ?_ (hwS := by
+            intro b j hb; cases hb; simp [absT_setAcct, putA, absOf, absSlot_some, slotsOf_setSlot])
         · simp [absT_setAcct, putA, undoT, absOf, upd_upd_same, ha, upd_self', absSlot_some, slotsOf_setSlot,
               slotsOf_none db a acc.created hk, updK_updK_same, updK_self]
         · exact BalOk.of_eq (by simp [absT_setAcct, putA, absOf, ha, upd_self'])
